@@ -425,6 +425,55 @@ def reader_independence_checks(rep):
                           {"first_read": before, "read_after_editing_the_first_result": again})
 
 
+def constructor_independence_checks(rep):
+    """An object built with a units-system object keeps its own: editing that object afterwards (the caller re-uses it for
+    something else) changes nothing in what the object says; likewise through the units_system setter."""
+    from strengths import (RDGraphSpace, RDGraphSpaceEdge, RDGraphSpaceNode, RDGridSpace, RDNetwork, RDSystem, Reaction, Species,
+                           reaction_to_dict, species_to_dict)
+    mk_us = lambda: UnitsSystem(space="nm", time="ms", quantity="mol")
+    net = lambda us: RDNetwork(species=[Species("A", density=2, D=1)], reactions=[Reaction("A -> ", kf=3)], units_system=us)
+    graph = lambda us: RDGraphSpace(nodes=[RDGraphSpaceNode(volume=2), RDGraphSpaceNode()], edges=[RDGraphSpaceEdge(0, 1, surface=3, distance=2)],
+                                    units_system=us)
+    graph_view = lambda o: rdspace_to_dict(o)
+    cases = [
+        ("species", lambda us: Species("A", density=2, D=1, units_system=us), species_to_dict),
+        ("reaction", lambda us: Reaction("A + B -> C", kf=3, kr=1, units_system=us), reaction_to_dict),
+        ("network", net, rdnetwork_to_dict),
+        ("grid", lambda us: RDGridSpace(w=2, cell_vol=3, units_system=us), rdspace_to_dict),
+        ("graph", graph, graph_view),
+        ("graph-node", lambda us: RDGraphSpace(nodes=[RDGraphSpaceNode(volume=2, units_system=us)], edges=[]), graph_view),
+        ("graph-edge", lambda us: RDGraphSpace(nodes=[RDGraphSpaceNode(), RDGraphSpaceNode()],
+                                                edges=[RDGraphSpaceEdge(0, 1, surface=3, distance=2, units_system=us)]), graph_view),
+        ("system", lambda us: RDSystem(network=net(UnitsSystem()), space=RDGridSpace(w=2), units_system=us), rdsystem_to_dict),
+        ("script", lambda us: RDScript(system=RDSystem(network=net(UnitsSystem()), space=RDGridSpace(w=2)), t_sample=[0, 2], time_step=0.5,
+                                       rng_seed=3, units_system=us), rdscript_to_dict),
+    ]
+    for name, build_fn, to_dict in cases:
+        for route in ("constructor", "setter"):
+            rep.case(["constructor-independence", name, route])
+            try:
+                us = mk_us()
+                if route == "constructor":
+                    o = build_fn(us)
+                else:
+                    o = build_fn(UnitsSystem())
+                    holder = o
+                    if name == "graph-node":
+                        holder = o.nodes[0]
+                    elif name == "graph-edge":
+                        holder = o.edges[0]
+                    holder.units_system = us
+                before = jnorm(to_dict(o))
+                us.space, us.time, us.quantity = "km", "h", "molecule"
+                after = jnorm(to_dict(o))
+            except Exception as e:  # noqa
+                rep.violation("defaults", "serial:constructor-independence-exception:%s:%s" % (name, route), {"exc": repr(e)[:200]})
+                continue
+            if before != after:
+                rep.violation("defaults", "serial:object-follows-a-units-system-held-by-the-caller:%s:%s" % (name, route),
+                              {"before": before, "after_the_caller_edited_its_units_system": after})
+
+
 def run(tier, selftest=False, only=None):
     rep = Report(PROP, tier)
     rep.rule = ("model: all units-declaration trees over the 8 nesting levels (recursive reader rule = nearest definite "
@@ -472,6 +521,8 @@ def run(tier, selftest=False, only=None):
     default_checks(rep)
     with rep.guard("reader-independence", None):
         reader_independence_checks(rep)
+    with rep.guard("constructor-independence", None):
+        constructor_independence_checks(rep)
     with rep.guard("trajectory", None):
         trajectory_name_checks(rep, tmp)
     shutil.rmtree(tmp, ignore_errors=True)
